@@ -109,6 +109,9 @@ func c19Run(t *testing.T, c c19Case) (leaks []string, sites map[string]bool, abo
 	conf.Options.SourcePasswordRaw = c19Src
 	conf.Options.TargetPasswordRaw = c19Tgt
 	conf.Options.SourceAuthType, conf.Options.TargetAuthType = "auth", "auth"
+	if c.Fault == "unknown-auth-type" {
+		conf.Options.SourceAuthType, conf.Options.TargetAuthType = "adminauth", "adminauth"
+	}
 	conf.Options.SourceType = c.SourceType
 	conf.Options.TargetType = "standalone"
 	conf.Options.SourceAddress, conf.Options.TargetAddress = "src:6379", "tgt:6379"
@@ -152,6 +155,10 @@ func c19Run(t *testing.T, c c19Case) (leaks []string, sites map[string]bool, abo
 		synctest.Test(t, func(t *testing.T) {
 			m := msource.New()
 			m.Password = c19Src
+			if c.Fault == "unknown-auth-type" {
+				// auth_type names a command the peers do not know: Redis >= 5 echoes the arguments in its error reply
+				m.Unknown = map[string]bool{"adminauth": true}
+			}
 			if c.Fault == "bad-source-password" {
 				m.Password = "something-else"
 			}
@@ -165,6 +172,9 @@ func c19Run(t *testing.T, c c19Case) (leaks []string, sites map[string]bool, abo
 			}
 			restores := 0
 			topt := mredis.Options{Registry: reg, Password: c19Tgt}
+			if c.Fault == "unknown-auth-type" {
+				topt.Unknown = map[string]bool{"adminauth": true}
+			}
 			topt.ReplyHook = func(cmd mredis.Cmd) []byte {
 				if cmd.Name() == "restore" {
 					restores++
@@ -275,7 +285,7 @@ func TestVerif_C19(t *testing.T) {
 	for _, level := range []string{"debug", "info"} {
 		for _, st := range []string{"standalone", conf.RedisTypeCluster} {
 			for _, resume := range []bool{false, true} {
-				for _, fault := range []string{"", "source-cut", "target-error", "bad-source-password"} {
+				for _, fault := range []string{"", "source-cut", "target-error", "bad-source-password", "unknown-auth-type"} {
 					idx++
 					if !ev.Mine(idx) {
 						continue
